@@ -15,3 +15,7 @@ check('C19', 'exploration',
       'Every mask word over {none,terminated,truncated}^T (exhaustive to T=6 quick / 8 thorough, structured beyond) x (lambda,discount) grid x basis of the linear input space, compared with the defining sum in exact rational arithmetic; gradient required exactly zero.',
       'Linearity in rewards/values/bootstrap makes the basis a determining set; degree<=T polynomial in lambda, discount decided for T<=3.',
       'bounded exhaustive enumeration of mask histories x determining input set, exact-arithmetic oracle', 'DESIGN.md 4/C19')
+check('C20', 'exploration',
+      'Full grid products over location, raw scale, pre-squash action (to |x|=40), min_std, var_scale, event sizes 1-6, batch shapes and keys; log_prob, scale and entropy compared with a 100+ digit decimal evaluation; range, determinism, reparameterisation (noise independence and gradient), bijector round trip, density normalisation; PPO inference function on array and dict observations with non-trivial normaliser statistics.',
+      'Grid claim only (transcendental functions: no determining set). Reference is python decimal, independent of jax numerics.',
+      'bounded exhaustive grid enumeration with high-precision reference oracle', 'DESIGN.md 4/C20')
